@@ -158,4 +158,37 @@ def check (pre : State) (op : Op) (word : String) (post : State) : List Fail :=
                 sameMap pre.queue post.queue (fun _ => false) && pre.height == post.height)) "state-callback-frame"
     else [{ clause := "callback-panic" }]
 
+/-! ### the random slice of C13, as a monitor over the same observations -/
+
+/-- queue entries <-> pending requests: every entry sits under the id of its own request, was
+    requested at or below the current height and is not overdue -/
+def hygiene (post : State) : List Fail :=
+  failIf (post.queue.any fun e => e.1.2 != requestId e.2.height e.2.consumer) "queue-entry-id-mismatch" ++
+  failIf (post.queue.any fun e => decide (e.2.height > post.height)) "queue-entry-from-the-future" ++
+  failIf (post.queue.any fun e => !(overflowEntry e) && decide ((e.1.1 : Int) < post.height)) "stale-entry" ++
+  failIf (post.queue.any fun e => overflowEntry e) "stale-entry" (some "F-rnd-2")
+
+def checkC13 (pre : State) (op : Op) (word : String) (post : State) : List Fail :=
+  match op with
+  | .beginBlock h t _ _ =>
+    let k := u64 (h - 1)
+    let due := pre.queue.filter fun e => e.1.1 == k
+    let dueNormal := due.filter fun e => !e.2.oracle
+    if word == "ok" then
+      -- each due request processed exactly once: removed, its result stored, nothing else touched
+      failIf (post.queue.any fun e => e.1.1 == k) "due-request-not-dequeued" ++
+      failIf (!(sameMap pre.queue post.queue (fun key => key.1 == k))) "queue-frame" ++
+      failIf (!(dueNormal.all fun e =>
+                  match AMap.get? post.randoms (requestId e.2.height e.2.consumer) with
+                  | some r => r.height == h - 1 && r.txHash == e.2.txHash
+                  | none => false)) "due-request-not-fulfilled" ++
+      failIf (post.height != h) "height" ++
+      hygiene post
+    else
+      [{ clause := "begin-block-panic",
+         cls := if t == 0 && !dueNormal.isEmpty then some "F-rnd-1" else none }]
+  | _ =>
+    -- messages and callbacks are not block processing; only queue hygiene is checked after them
+    if word == "ok" then hygiene post else []
+
 end Irismod.Spec.C18
